@@ -7,10 +7,10 @@ V=$(cd "$(dirname "$0")/.." && pwd); prop=$1; json=""; [ "$2" = "--json" ] && js
 REPO=${PERFCHECK_REPO:-/repo}
 export GOFLAGS=-mod=mod GOPROXY=off GOSUMDB=off GOTOOLCHAIN=local; unset GOWORK
 results=()
-run_one() { # name expect dir
-  local name=$1 expect=$2 S=$3 out rc rules verdict
+run_one() { # name expect dir [property whose check is run]
+  local name=$1 expect=$2 S=$3 out rc rules verdict q=${4:-$prop}
   if ! (cd $S && go build ./... >/dev/null 2>&1); then verdict="skipped(does-not-build)"; else
-    out=$(PERFCHECK_REPO=$S PERFCHECK_VERIF=$S/.verif $V/run check $prop 2>&1); rc=$?
+    out=$(PERFCHECK_REPO=$S PERFCHECK_VERIF=$S/.verif $V/run check $q 2>&1); rc=$?
     rules=$(echo "$out" | grep -E '^  rule=' | sed -E 's/^  rule=([^ ]+).*/\1/' | sort -u | tr '\n' ' ')
     if [ "$expect" = "silent" ]; then
       if [ $rc -eq 0 ]; then verdict="ok(silent)"; else verdict="FALSE-ALARM($rules rc=$rc)"; fi
@@ -47,7 +47,10 @@ for d in $V/seeded/$prop-*/; do
   S=$(mktemp -d /tmp/witness.XXXXXX); rsync -a --exclude .git $REPO/ $S/
   if (cd $S && patch -p1 -s --no-backup-if-mismatch < $d/patch.diff >/dev/null 2>&1); then
     exp=any; [ -f $d/EXPECT ] && exp=$(cat $d/EXPECT)
-    run_one "seeded:$(basename $d)" $exp $S
+    case "$exp" in
+      cross:*) run_one "seeded:$(basename $d)(decided by ${exp#cross:})" any $S ${exp#cross:} ;;
+      *) run_one "seeded:$(basename $d)" $exp $S ;;
+    esac
   else echo "$prop seeded:$(basename $d): skipped(patch-no-longer-applies)"; results+=("{\"name\":\"seeded:$(basename $d)\",\"expect\":\"any\",\"verdict\":\"skipped(patch-no-longer-applies)\"}"); fi
   rm -rf $S
 done
